@@ -45,6 +45,7 @@ fn main() {
                 .unwrap_or(serde_json::Value::Null);
             match doc["replay"]["engine"].as_str() {
                 Some("sched") => conc_checks::replay(&doc),
+                Some("faults") | Some("grid") => faults::replay(&doc),
                 _ => seq_checks::replay(&args[2]),
             }
         }
